@@ -236,8 +236,16 @@ def h_concatenate(I, a, k):
 
 
 def install_numpy_h(I):
-    """Extend the numpy model of interpreter I with abstract-matrix cases (delegating to the explicit model otherwise)."""
-    np = I.ext["numpy"]
+    """kept for callers: the abstract-matrix cases are installed process-wide by ext.default_ext()"""
+    return None
+
+
+def install_numpy_h_on(ext):
+    """Extend the numpy model with abstract-matrix cases (delegating to the explicit model otherwise)."""
+    np = ext["numpy"]
+    if getattr(np, "_h_installed", False):
+        return
+    np._h_installed = True
     base = dict(np.attrs)
 
     def wrap(name, hfn):
